@@ -137,7 +137,7 @@ __CPROVER_ensures(@W0 == 0 ==> (MON_FRESH && g_bytes == 0))
 __CPROVER_ensures(@W0 != 0 ==> ((g_mon.t == 0 && g_mon.need[0] == 0 && g_mon.done[0] == 1 && !g_mon.bad && g_bytes == @B0 + 1) || g_dtor_failed))
 '''
 UNITS.append(Unit('exp.dtor', (EXP + '~CdnsExporter', None), contract=DT_C, prelude=P, pre_c=PRE2 + '_Bool g_dtor_failed;\n', defines=DEF,
-                  extern_records=EXT, stubs=ENC_STUBS, ghost=[('unsigned long', 'B0', 'g_bytes'), ('unsigned long', 'W0', '$this->m_blocks_written')],
+                  extern_records=EXT, stubs=ENC_STUBS, replace=['exp.write_block', 'exp.write_block_b'], ghost=[('unsigned long', 'B0', 'g_bytes'), ('unsigned long', 'W0', '$this->m_blocks_written')],
                   setup='  static struct CdnsExporter obj;\n  __CPROVER_assume(' + inv('(&obj)') + ' && g_bytes < (1UL << 62));\n  g_dtor_failed = 0;\n',
                   args=['&obj'], props=['C02', 'C10', 'C13', 'C15'],
                   note='destruction closes the block array with exactly one stop code iff a header was written (the "+1" of C10); '
